@@ -41,10 +41,10 @@ Definition join_covered (d : dialect) (fl : flavor) (jt : jointype) : bool :=
 Fixpoint stage1 (m : bool) (jok : jointype -> bool) (p : op) : bool :=
   match p with
   | OTable _ _ => true
-  | OExtend s _ wd w => stage1 m jok s && (if wd then negb m || negb (mergeable_src s) else window_is_empty w && negb (m && win_top s))
+  | OExtend s _ wd w => stage1 m jok s && (if wd then true else window_is_empty w)
   | OSelectRows s _ | OSelectCols s _ | ODropCols s _ | ORename s _ | OMapCols s _ _ | OOrder s _ _ _ => stage1 m jok s
   | OConcat a b idc _ _ => stage1 m jok a && stage1 m jok b &&
-                           match idc with Some _ => concat_src_ok a && concat_src_ok b && negb (m && (win_top a || win_top b)) | None => true end
+                           match idc with Some _ => concat_src_ok a && concat_src_ok b | None => true end
   | OProject s ops gb => stage1 m jok s && negb (is_nil gb && is_nil ops)       (* the builder: "project must have ops or group_by" *)
   | OJoin a b _ _ jt => stage1 m jok a && stage1 m jok b && jok jt
   end.
